@@ -36,7 +36,7 @@ pub fn pick_threshold(s: &mut Stream, prof: &Profile) -> (f64, &'static str) {
     if all.is_empty() {
         all.push(0.5);
     }
-    match s.below(10) {
+    match s.below(11) {
         0 => (0.0, "zero"),
         1 => (f64::NEG_INFINITY, "neg-inf"),
         2 => (-1.0, "negative"),
@@ -51,8 +51,56 @@ pub fn pick_threshold(s: &mut Stream, prof: &Profile) -> (f64, &'static str) {
         }
         7 => (1.0, "one"),
         8 => (if s.bool() { 2.0 } else { f64::INFINITY }, "above-one"),
+        9 => ([1e-17, 1e-100, 1e-300, 5e-324, 2.2e-16, 1e-12][s.below(6)], "tiny-positive"),
         _ => (s.unit(), "random"),
     }
+}
+
+/// one truncation step against the model: `before` is the profile the object held, `named` its
+/// named view afterwards. Returns (profile afterwards, lost an action, some infoset had nothing
+/// above h, some probability within rounding of h)
+fn check_step(info: &crate::tree::Info, before: &Profile, named: &glue::Named, h: f64) -> Result<(Profile, bool, bool, bool), Verdict> {
+    let mut lost_action = false;
+    let mut emptied = false;
+    let mut near_threshold = false;
+    let raw = glue::to_profile(info, named).map_err(|m| Verdict::fail("C18/result-view-malformed", m))?;
+    for p in 0..2 {
+        for (name, v) in before[p].iter() {
+            let keep: Vec<bool> = v.iter().map(|x| *x > h).collect();
+            let got = &raw[p][name];
+            if keep.iter().any(|k| *k) {
+                let tot: f64 = v.iter().zip(keep.iter()).filter(|(_, k)| **k).map(|(x, _)| *x).sum();
+                for ((x, k), g) in v.iter().zip(keep.iter()).zip(got.iter()) {
+                    let want = if *k { *x / tot } else { 0.0 };
+                    if !ulp_close(want, *g, 4.0 + v.len() as f64) {
+                        return Err(Verdict::fail(
+                            "C18/support-or-rescaling",
+                            format!(
+                                "infoset {:?} of player {}: {:?} truncated at {:e} gives {:?}; expected the actions above the threshold rescaled proportionally",
+                                name, p + 1, v, h, got
+                            ),
+                        ));
+                    }
+                    if *x > 0.0 && !*k {
+                        lost_action = true;
+                    }
+                    if h.is_finite() && h > 0.0 && ((x - h).abs() <= 1e-9 * h || (want - h).abs() <= 1e-9 * h) {
+                        near_threshold = true;
+                    }
+                }
+            } else {
+                emptied = true;
+            }
+        }
+    }
+    // whatever the threshold, the result is a valid profile
+    let after = named_valid(info, named).map_err(|m| {
+        Verdict::fail(
+            if emptied { "C18/invalid-profile/no-action-above-threshold" } else { "C18/invalid-profile" },
+            format!("after truncate({:e}) the profile is not valid: {}", h, m),
+        )
+    })?;
+    Ok((after, lost_action, emptied, near_threshold))
 }
 
 pub fn check(bytes: &[u8], _ctx: &Ctx) -> Verdict {
@@ -79,52 +127,9 @@ pub fn check(bytes: &[u8], _ctx: &Ctx) -> Verdict {
     crate::runner::note(|| format!("game {}", built.tree.brief()));
     crate::runner::note(|| format!("profile ({}) {:?}", source, before));
     crate::runner::note(|| format!("truncate({:e}) [{}] -> {:?}", h, hkind, named));
-    // support and proportional rescaling where some action exceeds h
-    let mut lost_action = false;
-    let mut emptied = false;
-    let mut near_threshold = false;
-    let raw = match glue::to_profile(info, &named) {
-        Ok(p) => p,
-        Err(m) => return Verdict::fail("C18/result-view-malformed", m),
-    };
-    for p in 0..2 {
-        for (name, v) in before[p].iter() {
-            let keep: Vec<bool> = v.iter().map(|x| *x > h).collect();
-            let got = &raw[p][name];
-            if keep.iter().any(|k| *k) {
-                let tot: f64 = v.iter().zip(keep.iter()).filter(|(_, k)| **k).map(|(x, _)| *x).sum();
-                for ((x, k), g) in v.iter().zip(keep.iter()).zip(got.iter()) {
-                    let want = if *k { *x / tot } else { 0.0 };
-                    if !ulp_close(want, *g, 4.0 + v.len() as f64) {
-                        return Verdict::fail(
-                            "C18/support-or-rescaling",
-                            format!(
-                                "infoset {:?} of player {}: {:?} truncated at {} gives {:?}; expected the actions above the threshold rescaled proportionally",
-                                name, p + 1, v, h, got
-                            ),
-                        );
-                    }
-                    if *x > 0.0 && !*k {
-                        lost_action = true;
-                    }
-                    if h.is_finite() && h > 0.0 && ((x - h).abs() <= 1e-9 * h || (want - h).abs() <= 1e-9 * h) {
-                        near_threshold = true;
-                    }
-                }
-            } else {
-                emptied = true;
-            }
-        }
-    }
-    // whatever the threshold, the result is a valid profile
-    let after = match named_valid(info, &named) {
-        Ok(p) => p,
-        Err(m) => {
-            return Verdict::fail(
-                if emptied { "C18/invalid-profile/no-action-above-threshold" } else { "C18/invalid-profile" },
-                format!("after truncate({}) the profile is not valid: {}", h, m),
-            )
-        }
+    let (after, lost_action, emptied, near_threshold) = match check_step(info, &before, &named, h) {
+        Ok(x) => x,
+        Err(v) => return v,
     };
     let info_after = once.get_info();
     for p in 0..2 {
@@ -157,6 +162,21 @@ pub fn check(bytes: &[u8], _ctx: &Ctx) -> Verdict {
             Err(m) => return Verdict::fail("C18/invalid-profile-after-second-truncation", m),
         }
     }
+    // a second truncation of the same object at another threshold (lower, equal or higher): the
+    // model is applied to what the object held after the first one
+    if s.bool() {
+        let (h2, h2kind) = if s.bool() { pick_threshold(&mut s, &before) } else { pick_threshold(&mut s, &after) };
+        once.truncate(h2);
+        let named2 = glue::read_named(&once);
+        crate::runner::note(|| format!("then truncate({:e}) [{}] on the same object -> {:?}", h2, h2kind, named2));
+        if let Err(v) = check_step(info, &after, &named2, h2) {
+            return match v {
+                Verdict::Fail { sig, msg } => Verdict::fail(format!("{}/second-truncation", sig), format!("after truncate({:e}): {}", h, msg)),
+                other => other,
+            };
+        }
+        labels.push("second-truncation");
+    }
     if lost_action {
         labels.push("lost-an-action");
     }
@@ -182,7 +202,7 @@ pub fn prop() -> Prop {
         id: "C18",
         check,
         describe,
-        rule: "small generated games x profiles (injected or solver output) x thresholds from {-inf, -1, 0, a probability of the profile, its neighbours next_up/next_down, mid-points, 1, 2, +inf, random}; oracle: per-infoset model (support = actions above h, proportional rescaling within 4 ulp, any distribution when nothing exceeds h), validity predicate of C13, unchanged below the smallest positive probability, idempotence (skipped when a probability is within 1e-9 relative of h). Non-trivial = some infoset loses an action or has no action above h; distinct by (tree, profile, h).",
+        rule: "small generated games x profiles (injected or solver output) x thresholds from {-inf, -1, 0, a probability of the profile, its neighbours next_up/next_down, mid-points, 1, 2, +inf, tiny positive values down to 5e-324, random}, in half the cases followed by a second truncation of the same object at another such threshold; oracle: per-infoset model (support = actions above h, proportional rescaling within 4 ulp, any distribution when nothing exceeds h), validity predicate of C13, unchanged below the smallest positive probability, idempotence (skipped when a probability is within 1e-9 relative of h). Non-trivial = some infoset loses an action or has no action above h; distinct by (tree, profile, h).",
         max_len: 700,
         cases_quick: 2_000_000,
         cases_thorough: 25_000_000,
